@@ -11,7 +11,7 @@ use std::collections::BTreeSet;
 const TYPES: [&str; 3] = ["AWS::S3::Bucket", "AWS::EC2::Volume", "Custom::Thing"];
 
 fn values() -> Vec<V> {
-    vec![s("s"), s("s t"), i(5), V::Bool(true), s("5"), f(1.5), i(-5), l(vec![i(1), s("a")]), m(vec![("k", i(1))]), V::Null, s(" s"), s("q\"t"), s("b\\"), s("it's"), f(-1.5), s(""), s("true")]
+    vec![s("s"), s("s t"), i(5), V::Bool(true), s("5"), f(1.5), i(-5), l(vec![i(1), s("a")]), m(vec![("k", i(1))]), V::Null, s(" s"), s("q\"t"), s("b\\"), s("it's"), f(-1.5), s(""), s("true"), s("make\tall")]
 }
 
 #[derive(Clone, Debug)]
@@ -164,6 +164,33 @@ pub fn run(tier: &str) -> i32 {
             if *st != St::Pass {
                 let cause = classify(rs);
                 acc.violate(&format!("own-template-not-PASS:{}", cause), format!("rule {} is {} on the template it was generated from | rules `{}` template `{}`", nme, st.txt(), p.out.trim(), text.trim()), replay("PASS", st.txt().into()));
+            }
+        }
+        // (2b) --output FILE: the file holds exactly this run's rules, whatever it held before (absent / shorter / longer)
+        if fmt == "json" && (thorough || ti % 8 == 0) {
+            for (stale_name, stale) in [("absent", None), ("shorter", Some("# old\n".to_string())), ("longer", Some(format!("# STALE-CONTENT\nrule stale_rule {{ a exists }}\n{}", "# STALE-TAIL }} )) \n".repeat(400))))] {
+                let op = workdir().join("c19/out.guard");
+                let _ = std::fs::remove_file(&op);
+                if let Some(st) = &stale {
+                    put("c19/out.guard", st);
+                }
+                let ops = op.to_string_lossy().to_string();
+                let po = cli_proc(&sv(&["rulegen", "-t", &tp, "-o", &ops]), "", &[], None, 10_000);
+                acc.traces += 1;
+                let content = std::fs::read_to_string(&op).unwrap_or_default();
+                // (two runs may order values differently, so the comparison is on the rule names, not on verdicts)
+                let norm = |o: &Obs| match o {
+                    Obs::Ok(_, rsx) => {
+                        let mut r: Vec<String> = rsx.iter().map(|(n, _)| n.clone()).collect();
+                        r.sort();
+                        format!("rules {:?}", r)
+                    }
+                    other => other.short(),
+                };
+                let of = lib_run(&content, &tv.json());
+                if po.status != p.status || content.contains("STALE") || content.contains("# old") || norm(&of) != norm(&o) {
+                    acc.violate(&format!("output-file:{}", stale_name), format!("rulegen -o FILE with the file {} beforehand: exit {} and the file evaluates to {} where the rules printed to stdout give {} (stale content kept: {})", stale_name, po.status, of.short(), o.short(), content.contains("STALE") || content.contains("# old")), json!({"kind":"proc","argv":["rulegen","-t","t.json","-o","out.guard"],"files":{"template":text,"out.guard before":stale},"expected":"the file holds exactly the generated rules","observed":content.chars().take(300).collect::<String>()}));
+                }
             }
         }
         // (4) changing a scalar property value to a value not present makes the rule FAIL
